@@ -14,6 +14,7 @@ var classRules = []struct {
 	{"type-mismatch", regexp.MustCompile(`TypeMismatch: Cannot convert`)},
 	{"no-source-field", regexp.MustCompile(`Cannot match the target field with the source entry: "[^"]*" does not exist`)},
 	{"ambiguous-field", regexp.MustCompile(`multiple matches found`)},
+	{"unexported-source", regexp.MustCompile(`Cannot read value of unexported field`)},
 	{"unexported-target", regexp.MustCompile(`Cannot set value for unexported field`)},
 	{"unknown-field", regexp.MustCompile(`Field "[^"]*" does not exist`)},
 	{"path", regexp.MustCompile(`Cannot (access|find the mapped field)`)},
